@@ -142,7 +142,7 @@ CHECKS['C18'] = {
     'explanation': 'LinkFormatWrite::{new,set_add_newlines,link,finish}, LinkAttributeWrite::{internal_attr_key_eq,attr,attr_u32,attr_u16,attr_quoted,finish}',
 }
 
-T_OBS = ['assumed closure-parametric std contracts (DESIGN.md A.3): BTreeMap::entry / Entry::or_insert / Entry::and_modify (prophetic), Vec::retain (existential filter form); R28 wrappers vec_position / vec_for_each_mut over the vector view; R29 Vec<u8> == [u8]',
+T_OBS = ['assumed closure-parametric std contracts (DESIGN.md A.3): BTreeMap::entry / Entry::or_insert / Entry::and_modify (prophetic), Vec::retain (existential filter form); R28 wrappers vec_position / vec_for_each_mut / vec_find_mut over the vector view; R30 `for (k, v) in map.iter_mut() { BODY }` read as btree_for_each_mut(&mut map, |k, v| BODY) (BTreeMap::iter_mut has no vstd model); R29 Vec<u8> == [u8]',
          'assumptions on the generic Endpoint, stated as preconditions (ep_ok): == agrees with spec equality, clone() returns an equal value; String keys: std Ord is a total order (vstd laws_cmp) and Strings with equal characters are the same key',
          'requests are abstracted to (source, path string, token, message id): get_path() is a function of the request (C19 path accessors are not verified)',
          'coap_info!/coap_debug! macros read from log.rs (no-log variant)']
@@ -150,22 +150,20 @@ CHECKS['C14'] = {
     'level': 'proof',
     'units': ['obs'],
     'kani': [],
-    'technique': 'contract-based deductive verification (Verus) of Subject::register / deregister / resource_changed read verbatim, with whole-view postconditions and a data-structure invariant (one observer per endpoint)',
-    'level_text': 'Unbounded proof per operation, for all registry states, endpoints, tokens and paths: register replaces the observer of the same endpoint in place (token, cleared counters) or appends a new one, creating the resource with sequence 0; deregister removes exactly the first observer whose endpoint AND token match on that path and nothing else; resource_changed for an unobserved path leaves the map unchanged; every operation changes only the entry of its own path (final map == old map with that one entry replaced) and preserves "endpoints pairwise distinct per resource". The history statement of C14 follows by induction over operations from these per-operation contracts.',
-    'level_note': 'Trusted: see trusted_base. NOT covered: Subject::acknowledge (BTreeMap::iter_mut and IterMut::find returning &mut are outside what the installed Verus can read; orphan rule prevents adding the iterator model) - histories containing acknowledgements are covered only in so far as acknowledge is assumed not to change endpoints, tokens or order.',
+    'technique': 'contract-based deductive verification (Verus) of Subject::register / deregister / resource_changed / acknowledge read verbatim, with whole-view postconditions and a data-structure invariant (one observer per endpoint)',
+    'level_text': 'Unbounded proof per operation, for all registry states, endpoints, tokens and paths: register replaces the observer of the same endpoint in place (token, cleared counters) or appends a new one, creating the resource with sequence 0; deregister removes exactly the first observer whose endpoint AND token match on that path and nothing else; resource_changed for an unobserved path leaves the map unchanged; acknowledge changes no endpoint, token or order (only the counter and pending id of the first matching observer per resource); every operation changes only the entry of its own path (final map == old map with that one entry replaced) and preserves "endpoints pairwise distinct per resource". The history statement of C14 follows by induction over operations from these per-operation contracts.',
+    'level_note': 'Trusted: see trusted_base. Subject::acknowledge is read with its loop turned into a for_each wrapper call (R30).',
     'trusted': [T_VERUS] + T_OBS,
-    'not_covered': ['Subject::acknowledge'],
     'explanation': 'unit obs',
 }
 CHECKS['C15'] = {
     'level': 'proof',
     'units': ['obs', 'resp'],
     'kani': [],
-    'technique': 'contract-based deductive verification (Verus) of Subject::resource_changed (closures verbatim with spliced contracts) and create_notification',
-    'level_text': 'Unbounded proof: each notification round on an observed resource sets sequence := sequence + 1, stamps every observer with the message id, adds 1 to its counter iff the round is confirmable, and keeps exactly (in order) the observers whose counter is <= the limit, for every limit 0..255; the counter addition is proved overflow-free from the invariant counter <= 255 (so whatever the limit and however long the history). create_notification yields version 1, CON/NON, 2.05, the given message id, token and payload and a single Observe option with the minimal uint of the sequence number.',
-    'level_note': 'Trusted: see trusted_base. NOT covered: the acknowledgement clause (Subject::acknowledge, see C14). Precondition: fewer than 2^32 rounds per resource (u32 sequence).',
+    'technique': 'contract-based deductive verification (Verus) of Subject::resource_changed and acknowledge (closures verbatim with spliced contracts) and create_notification',
+    'level_text': 'Unbounded proof: each notification round on an observed resource sets sequence := sequence + 1, stamps every observer with the message id, adds 1 to its counter iff the round is confirmable, and keeps exactly (in order) the observers whose counter is <= the limit, for every limit 0..255; an acknowledgement resets exactly the first observer of each resource whose endpoint matches and whose pending message id is the acknowledged one (count := 0, pending id cleared), any other acknowledgement changes nothing; the counter addition is proved overflow-free from the invariant counter <= 255 (so whatever the limit and however long the history). create_notification yields version 1, CON/NON, 2.05, the given message id, token and payload and a single Observe option with the minimal uint of the sequence number.',
+    'level_note': 'Trusted: see trusted_base. Precondition: fewer than 2^32 rounds per resource (u32 sequence).',
     'trusted': [T_VERUS] + T_OBS + [T_UINT, T_R1, T_DEF],
-    'not_covered': ['Subject::acknowledge (reset of the counter by a matching ACK)'],
     'explanation': 'units obs + resp(create_notification)',
 }
 
